@@ -25,21 +25,29 @@ CONSTANTS Writers,   \* set of writer thread ids
           Plans,     \* set of functions Writers -> Seq({"commit","rollback","empty"}): how each
                      \* transaction of each writer ends (the environment's script)
           RPlans,    \* set of functions Readers -> Nat: number of read transactions per reader
-          InitVid    \* id of the only version retained initially
+          InitVid,   \* id of the only version retained initially
+          Policers,  \* set of thread ids that change the retention policy (set_max_versions)
+          PPlans     \* set of functions Policers -> Seq(Nat): the max_versions values each sets
+                     \* (0 stands for None = keep everything)
 
 Tag(t, k) == t * 10 + k
 Last(s) == s[Len(s)]
 MinOf(S) == CHOOSE x \in S : \A y \in S : x <= y
 
-\* Retention (default policy): never prune a version >= one a reader has pinned, never
-\* prune the newest; everything older goes.
+\* Retention: pruning proceeds from the oldest version and stops at the first version that
+\* is >= one a reader has pinned, or is the newest, or that the policy keeps.  The policy
+\* "max_versions = n" prunes while more than n versions are retained (n = 0: None, keeps
+\* everything); the default policy prunes whatever may be pruned, which is n = 1.
 LeastKept(vs, rv) == LET P == {rv[r] : r \in DOMAIN rv} \ {0}
                      IN IF P # {} THEN MinOf(P) ELSE Last(vs).id
-Prune(vs, rv) == SelectSeq(vs, LAMBDA v : v.id >= LeastKept(vs, rv))
+Older(vs, rv) == Cardinality({i \in 1..Len(vs) : vs[i].id < LeastKept(vs, rv)})
+Excess(vs, n) == IF n = 0 THEN 0 ELSE IF Len(vs) > n THEN Len(vs) - n ELSE 0
+Drop(vs, rv, n) == IF Older(vs, rv) < Excess(vs, n) THEN Older(vs, rv) ELSE Excess(vs, n)
+Prune(vs, rv, n) == SubSeq(vs, Drop(vs, rv, n) + 1, Len(vs))
 
 (* --algorithm WriterAdmission {
 variables
-  plan \in Plans, rplan \in RPlans,
+  plan \in Plans, rplan \in RPlans, pplan \in PPlans,
   lock = 0,                 \* _version_lock: holder or 0
   writeTxn = 0,             \* _write_txn: thread owning the open write transaction or 0
   writeEvent = 0,           \* _write_event: event holding the exclusive right or 0
@@ -49,6 +57,7 @@ variables
   versions = <<[id |-> InitVid, content |-> <<>>]>>,   \* _versions
   published = <<>>,         \* content of zone.nodes
   readerVer = [x \in Readers |-> 0],                   \* _readers: pinned version id per reader
+  maxv = 1,                 \* _pruning_policy as max_versions (1 = the default policy, 0 = None)
   \* history (ghost) variables, never read by the algorithm
   admitOrder = <<>>,        \* tags in order of admission
   arrivals = <<>>,          \* tags in order of first enqueue (or of admission if never enqueued)
@@ -81,7 +90,7 @@ eAcq:     await lock = 0; lock := self;                          \* :261 / :275
           if (plan[self][k] = "commit") {
 cAppend:    versions := Append(versions, [id |-> ver, content |-> snap]);  \* :265
             everVersions := everVersions \cup {[id |-> ver, content |-> snap]};
-cPrune:     versions := Prune(versions, readerVer);              \* :266
+cPrune:     versions := Prune(versions, readerVer, maxv);              \* :266
 cPublish:   published := snap; committed := committed \cup {Tag(self, k)};  \* :267
           };
 xClear:   writeTxn := 0;                                         \* :257
@@ -106,26 +115,40 @@ rOpen:    skip;                                                  \* reader() ret
 rRead:    skip;                                                  \* a later read in the same txn
 rcAcq:    await lock = 0; lock := self;                          \* :251
 rcEnd:    readerVer[self] := 0;                                  \* :252
-rcPrune:  versions := Prune(versions, readerVer);                \* :253
+rcPrune:  versions := Prune(versions, readerVer, maxv);                \* :253
 rcRel:    lock := 0;
 rEnd:     skip;
         }
 }
+
+fair process (pol \in Policers)
+  variables pk = 0;
+{
+pStart: while (pk < Len(pplan[self])) {
+          pk := pk + 1;
+pAcq:     await lock = 0; lock := self;                          \* :246
+pSet:     maxv := pplan[self][pk];                               \* :247
+pPrune:   versions := Prune(versions, readerVer, maxv);          \* :248
+pRel:     lock := 0;
+pEnd:     skip;                                                  \* set_max_versions() returns
+        }
+}
 } *)
 \* BEGIN TRANSLATION
-VARIABLES pc, plan, rplan, lock, writeTxn, writeEvent, waiters, evSet, nextEv, 
-          versions, published, readerVer, admitOrder, arrivals, committed, 
-          everVersions, k, myEv, enq, ver, snap, rk, rver
+VARIABLES pc, plan, rplan, pplan, lock, writeTxn, writeEvent, waiters, evSet, 
+          nextEv, versions, published, readerVer, maxv, admitOrder, arrivals, 
+          committed, everVersions, k, myEv, enq, ver, snap, rk, rver, pk
 
-vars == << pc, plan, rplan, lock, writeTxn, writeEvent, waiters, evSet, 
-           nextEv, versions, published, readerVer, admitOrder, arrivals, 
-           committed, everVersions, k, myEv, enq, ver, snap, rk, rver >>
+vars == << pc, plan, rplan, pplan, lock, writeTxn, writeEvent, waiters, evSet, 
+           nextEv, versions, published, readerVer, maxv, admitOrder, arrivals, 
+           committed, everVersions, k, myEv, enq, ver, snap, rk, rver, pk >>
 
-ProcSet == (Writers) \cup (Readers)
+ProcSet == (Writers) \cup (Readers) \cup (Policers)
 
 Init == (* Global variables *)
         /\ plan \in Plans
         /\ rplan \in RPlans
+        /\ pplan \in PPlans
         /\ lock = 0
         /\ writeTxn = 0
         /\ writeEvent = 0
@@ -135,6 +158,7 @@ Init == (* Global variables *)
         /\ versions = <<[id |-> InitVid, content |-> <<>>]>>
         /\ published = <<>>
         /\ readerVer = [x \in Readers |-> 0]
+        /\ maxv = 1
         /\ admitOrder = <<>>
         /\ arrivals = <<>>
         /\ committed = {}
@@ -148,8 +172,11 @@ Init == (* Global variables *)
         (* Process r *)
         /\ rk = [self \in Readers |-> 0]
         /\ rver = [self \in Readers |-> [id |-> 0, content |-> <<>>]]
+        (* Process pol *)
+        /\ pk = [self \in Policers |-> 0]
         /\ pc = [self \in ProcSet |-> CASE self \in Writers -> "wStart"
-                                        [] self \in Readers -> "rStart"]
+                                        [] self \in Readers -> "rStart"
+                                        [] self \in Policers -> "pStart"]
 
 wStart(self) == /\ pc[self] = "wStart"
                 /\ IF k[self] < Len(plan[self])
@@ -159,19 +186,21 @@ wStart(self) == /\ pc[self] = "wStart"
                            /\ pc' = [pc EXCEPT ![self] = "wAcq"]
                       ELSE /\ pc' = [pc EXCEPT ![self] = "Done"]
                            /\ UNCHANGED << k, myEv, enq >>
-                /\ UNCHANGED << plan, rplan, lock, writeTxn, writeEvent, 
+                /\ UNCHANGED << plan, rplan, pplan, lock, writeTxn, writeEvent, 
                                 waiters, evSet, nextEv, versions, published, 
-                                readerVer, admitOrder, arrivals, committed, 
-                                everVersions, ver, snap, rk, rver >>
+                                readerVer, maxv, admitOrder, arrivals, 
+                                committed, everVersions, ver, snap, rk, rver, 
+                                pk >>
 
 wAcq(self) == /\ pc[self] = "wAcq"
               /\ lock = 0
               /\ lock' = self
               /\ pc' = [pc EXCEPT ![self] = "wTest"]
-              /\ UNCHANGED << plan, rplan, writeTxn, writeEvent, waiters, 
-                              evSet, nextEv, versions, published, readerVer, 
-                              admitOrder, arrivals, committed, everVersions, k, 
-                              myEv, enq, ver, snap, rk, rver >>
+              /\ UNCHANGED << plan, rplan, pplan, writeTxn, writeEvent, 
+                              waiters, evSet, nextEv, versions, published, 
+                              readerVer, maxv, admitOrder, arrivals, committed, 
+                              everVersions, k, myEv, enq, ver, snap, rk, rver, 
+                              pk >>
 
 wTest(self) == /\ pc[self] = "wTest"
                /\ IF writeTxn = 0 /\ myEv[self] = writeEvent
@@ -186,26 +215,28 @@ wTest(self) == /\ pc[self] = "wTest"
                      ELSE /\ pc' = [pc EXCEPT ![self] = "wNewEv"]
                           /\ UNCHANGED << writeTxn, writeEvent, admitOrder, 
                                           arrivals >>
-               /\ UNCHANGED << plan, rplan, lock, waiters, evSet, nextEv, 
-                               versions, published, readerVer, committed, 
-                               everVersions, k, myEv, enq, ver, snap, rk, rver >>
+               /\ UNCHANGED << plan, rplan, pplan, lock, waiters, evSet, 
+                               nextEv, versions, published, readerVer, maxv, 
+                               committed, everVersions, k, myEv, enq, ver, 
+                               snap, rk, rver, pk >>
 
 wRelA(self) == /\ pc[self] = "wRelA"
                /\ lock' = 0
                /\ pc' = [pc EXCEPT ![self] = "wSetup"]
-               /\ UNCHANGED << plan, rplan, writeTxn, writeEvent, waiters, 
-                               evSet, nextEv, versions, published, readerVer, 
-                               admitOrder, arrivals, committed, everVersions, 
-                               k, myEv, enq, ver, snap, rk, rver >>
+               /\ UNCHANGED << plan, rplan, pplan, writeTxn, writeEvent, 
+                               waiters, evSet, nextEv, versions, published, 
+                               readerVer, maxv, admitOrder, arrivals, 
+                               committed, everVersions, k, myEv, enq, ver, 
+                               snap, rk, rver, pk >>
 
 wNewEv(self) == /\ pc[self] = "wNewEv"
                 /\ nextEv' = nextEv + 1
                 /\ myEv' = [myEv EXCEPT ![self] = nextEv']
                 /\ pc' = [pc EXCEPT ![self] = "wEnq"]
-                /\ UNCHANGED << plan, rplan, lock, writeTxn, writeEvent, 
+                /\ UNCHANGED << plan, rplan, pplan, lock, writeTxn, writeEvent, 
                                 waiters, evSet, versions, published, readerVer, 
-                                admitOrder, arrivals, committed, everVersions, 
-                                k, enq, ver, snap, rk, rver >>
+                                maxv, admitOrder, arrivals, committed, 
+                                everVersions, k, enq, ver, snap, rk, rver, pk >>
 
 wEnq(self) == /\ pc[self] = "wEnq"
               /\ waiters' = Append(waiters, myEv[self])
@@ -215,43 +246,47 @@ wEnq(self) == /\ pc[self] = "wEnq"
                     ELSE /\ TRUE
                          /\ UNCHANGED << arrivals, enq >>
               /\ pc' = [pc EXCEPT ![self] = "wRelW"]
-              /\ UNCHANGED << plan, rplan, lock, writeTxn, writeEvent, evSet, 
-                              nextEv, versions, published, readerVer, 
-                              admitOrder, committed, everVersions, k, myEv, 
-                              ver, snap, rk, rver >>
+              /\ UNCHANGED << plan, rplan, pplan, lock, writeTxn, writeEvent, 
+                              evSet, nextEv, versions, published, readerVer, 
+                              maxv, admitOrder, committed, everVersions, k, 
+                              myEv, ver, snap, rk, rver, pk >>
 
 wRelW(self) == /\ pc[self] = "wRelW"
                /\ lock' = 0
                /\ pc' = [pc EXCEPT ![self] = "wWait"]
-               /\ UNCHANGED << plan, rplan, writeTxn, writeEvent, waiters, 
-                               evSet, nextEv, versions, published, readerVer, 
-                               admitOrder, arrivals, committed, everVersions, 
-                               k, myEv, enq, ver, snap, rk, rver >>
+               /\ UNCHANGED << plan, rplan, pplan, writeTxn, writeEvent, 
+                               waiters, evSet, nextEv, versions, published, 
+                               readerVer, maxv, admitOrder, arrivals, 
+                               committed, everVersions, k, myEv, enq, ver, 
+                               snap, rk, rver, pk >>
 
 wWait(self) == /\ pc[self] = "wWait"
                /\ myEv[self] \in evSet
                /\ pc' = [pc EXCEPT ![self] = "wAcq"]
-               /\ UNCHANGED << plan, rplan, lock, writeTxn, writeEvent, 
+               /\ UNCHANGED << plan, rplan, pplan, lock, writeTxn, writeEvent, 
                                waiters, evSet, nextEv, versions, published, 
-                               readerVer, admitOrder, arrivals, committed, 
-                               everVersions, k, myEv, enq, ver, snap, rk, rver >>
+                               readerVer, maxv, admitOrder, arrivals, 
+                               committed, everVersions, k, myEv, enq, ver, 
+                               snap, rk, rver, pk >>
 
 wSetup(self) == /\ pc[self] = "wSetup"
                 /\ ver' = [ver EXCEPT ![self] = Last(versions).id + 1]
                 /\ snap' = [snap EXCEPT ![self] = published]
                 /\ pc' = [pc EXCEPT ![self] = "wRet"]
-                /\ UNCHANGED << plan, rplan, lock, writeTxn, writeEvent, 
+                /\ UNCHANGED << plan, rplan, pplan, lock, writeTxn, writeEvent, 
                                 waiters, evSet, nextEv, versions, published, 
-                                readerVer, admitOrder, arrivals, committed, 
-                                everVersions, k, myEv, enq, rk, rver >>
+                                readerVer, maxv, admitOrder, arrivals, 
+                                committed, everVersions, k, myEv, enq, rk, 
+                                rver, pk >>
 
 wRet(self) == /\ pc[self] = "wRet"
               /\ TRUE
               /\ pc' = [pc EXCEPT ![self] = "wBody"]
-              /\ UNCHANGED << plan, rplan, lock, writeTxn, writeEvent, waiters, 
-                              evSet, nextEv, versions, published, readerVer, 
-                              admitOrder, arrivals, committed, everVersions, k, 
-                              myEv, enq, ver, snap, rk, rver >>
+              /\ UNCHANGED << plan, rplan, pplan, lock, writeTxn, writeEvent, 
+                              waiters, evSet, nextEv, versions, published, 
+                              readerVer, maxv, admitOrder, arrivals, committed, 
+                              everVersions, k, myEv, enq, ver, snap, rk, rver, 
+                              pk >>
 
 wBody(self) == /\ pc[self] = "wBody"
                /\ IF plan[self][k[self]] = "commit"
@@ -259,10 +294,11 @@ wBody(self) == /\ pc[self] = "wBody"
                      ELSE /\ TRUE
                           /\ snap' = snap
                /\ pc' = [pc EXCEPT ![self] = "eAcq"]
-               /\ UNCHANGED << plan, rplan, lock, writeTxn, writeEvent, 
+               /\ UNCHANGED << plan, rplan, pplan, lock, writeTxn, writeEvent, 
                                waiters, evSet, nextEv, versions, published, 
-                               readerVer, admitOrder, arrivals, committed, 
-                               everVersions, k, myEv, enq, ver, rk, rver >>
+                               readerVer, maxv, admitOrder, arrivals, 
+                               committed, everVersions, k, myEv, enq, ver, rk, 
+                               rver, pk >>
 
 eAcq(self) == /\ pc[self] = "eAcq"
               /\ lock = 0
@@ -270,86 +306,95 @@ eAcq(self) == /\ pc[self] = "eAcq"
               /\ IF plan[self][k[self]] = "commit"
                     THEN /\ pc' = [pc EXCEPT ![self] = "cAppend"]
                     ELSE /\ pc' = [pc EXCEPT ![self] = "xClear"]
-              /\ UNCHANGED << plan, rplan, writeTxn, writeEvent, waiters, 
-                              evSet, nextEv, versions, published, readerVer, 
-                              admitOrder, arrivals, committed, everVersions, k, 
-                              myEv, enq, ver, snap, rk, rver >>
+              /\ UNCHANGED << plan, rplan, pplan, writeTxn, writeEvent, 
+                              waiters, evSet, nextEv, versions, published, 
+                              readerVer, maxv, admitOrder, arrivals, committed, 
+                              everVersions, k, myEv, enq, ver, snap, rk, rver, 
+                              pk >>
 
 cAppend(self) == /\ pc[self] = "cAppend"
                  /\ versions' = Append(versions, [id |-> ver[self], content |-> snap[self]])
                  /\ everVersions' = (everVersions \cup {[id |-> ver[self], content |-> snap[self]]})
                  /\ pc' = [pc EXCEPT ![self] = "cPrune"]
-                 /\ UNCHANGED << plan, rplan, lock, writeTxn, writeEvent, 
-                                 waiters, evSet, nextEv, published, readerVer, 
-                                 admitOrder, arrivals, committed, k, myEv, enq, 
-                                 ver, snap, rk, rver >>
+                 /\ UNCHANGED << plan, rplan, pplan, lock, writeTxn, 
+                                 writeEvent, waiters, evSet, nextEv, published, 
+                                 readerVer, maxv, admitOrder, arrivals, 
+                                 committed, k, myEv, enq, ver, snap, rk, rver, 
+                                 pk >>
 
 cPrune(self) == /\ pc[self] = "cPrune"
-                /\ versions' = Prune(versions, readerVer)
+                /\ versions' = Prune(versions, readerVer, maxv)
                 /\ pc' = [pc EXCEPT ![self] = "cPublish"]
-                /\ UNCHANGED << plan, rplan, lock, writeTxn, writeEvent, 
+                /\ UNCHANGED << plan, rplan, pplan, lock, writeTxn, writeEvent, 
                                 waiters, evSet, nextEv, published, readerVer, 
-                                admitOrder, arrivals, committed, everVersions, 
-                                k, myEv, enq, ver, snap, rk, rver >>
+                                maxv, admitOrder, arrivals, committed, 
+                                everVersions, k, myEv, enq, ver, snap, rk, 
+                                rver, pk >>
 
 cPublish(self) == /\ pc[self] = "cPublish"
                   /\ published' = snap[self]
                   /\ committed' = (committed \cup {Tag(self, k[self])})
                   /\ pc' = [pc EXCEPT ![self] = "xClear"]
-                  /\ UNCHANGED << plan, rplan, lock, writeTxn, writeEvent, 
-                                  waiters, evSet, nextEv, versions, readerVer, 
-                                  admitOrder, arrivals, everVersions, k, myEv, 
-                                  enq, ver, snap, rk, rver >>
+                  /\ UNCHANGED << plan, rplan, pplan, lock, writeTxn, 
+                                  writeEvent, waiters, evSet, nextEv, versions, 
+                                  readerVer, maxv, admitOrder, arrivals, 
+                                  everVersions, k, myEv, enq, ver, snap, rk, 
+                                  rver, pk >>
 
 xClear(self) == /\ pc[self] = "xClear"
                 /\ writeTxn' = 0
                 /\ pc' = [pc EXCEPT ![self] = "xTest"]
-                /\ UNCHANGED << plan, rplan, lock, writeEvent, waiters, evSet, 
-                                nextEv, versions, published, readerVer, 
-                                admitOrder, arrivals, committed, everVersions, 
-                                k, myEv, enq, ver, snap, rk, rver >>
+                /\ UNCHANGED << plan, rplan, pplan, lock, writeEvent, waiters, 
+                                evSet, nextEv, versions, published, readerVer, 
+                                maxv, admitOrder, arrivals, committed, 
+                                everVersions, k, myEv, enq, ver, snap, rk, 
+                                rver, pk >>
 
 xTest(self) == /\ pc[self] = "xTest"
                /\ IF waiters # <<>>
                      THEN /\ pc' = [pc EXCEPT ![self] = "xPop"]
                      ELSE /\ pc' = [pc EXCEPT ![self] = "eRel"]
-               /\ UNCHANGED << plan, rplan, lock, writeTxn, writeEvent, 
+               /\ UNCHANGED << plan, rplan, pplan, lock, writeTxn, writeEvent, 
                                waiters, evSet, nextEv, versions, published, 
-                               readerVer, admitOrder, arrivals, committed, 
-                               everVersions, k, myEv, enq, ver, snap, rk, rver >>
+                               readerVer, maxv, admitOrder, arrivals, 
+                               committed, everVersions, k, myEv, enq, ver, 
+                               snap, rk, rver, pk >>
 
 xPop(self) == /\ pc[self] = "xPop"
               /\ writeEvent' = Head(waiters)
               /\ waiters' = Tail(waiters)
               /\ pc' = [pc EXCEPT ![self] = "xSet"]
-              /\ UNCHANGED << plan, rplan, lock, writeTxn, evSet, nextEv, 
-                              versions, published, readerVer, admitOrder, 
-                              arrivals, committed, everVersions, k, myEv, enq, 
-                              ver, snap, rk, rver >>
+              /\ UNCHANGED << plan, rplan, pplan, lock, writeTxn, evSet, 
+                              nextEv, versions, published, readerVer, maxv, 
+                              admitOrder, arrivals, committed, everVersions, k, 
+                              myEv, enq, ver, snap, rk, rver, pk >>
 
 xSet(self) == /\ pc[self] = "xSet"
               /\ evSet' = (evSet \cup {writeEvent})
               /\ pc' = [pc EXCEPT ![self] = "eRel"]
-              /\ UNCHANGED << plan, rplan, lock, writeTxn, writeEvent, waiters, 
-                              nextEv, versions, published, readerVer, 
-                              admitOrder, arrivals, committed, everVersions, k, 
-                              myEv, enq, ver, snap, rk, rver >>
+              /\ UNCHANGED << plan, rplan, pplan, lock, writeTxn, writeEvent, 
+                              waiters, nextEv, versions, published, readerVer, 
+                              maxv, admitOrder, arrivals, committed, 
+                              everVersions, k, myEv, enq, ver, snap, rk, rver, 
+                              pk >>
 
 eRel(self) == /\ pc[self] = "eRel"
               /\ lock' = 0
               /\ pc' = [pc EXCEPT ![self] = "eEnd"]
-              /\ UNCHANGED << plan, rplan, writeTxn, writeEvent, waiters, 
-                              evSet, nextEv, versions, published, readerVer, 
-                              admitOrder, arrivals, committed, everVersions, k, 
-                              myEv, enq, ver, snap, rk, rver >>
+              /\ UNCHANGED << plan, rplan, pplan, writeTxn, writeEvent, 
+                              waiters, evSet, nextEv, versions, published, 
+                              readerVer, maxv, admitOrder, arrivals, committed, 
+                              everVersions, k, myEv, enq, ver, snap, rk, rver, 
+                              pk >>
 
 eEnd(self) == /\ pc[self] = "eEnd"
               /\ TRUE
               /\ pc' = [pc EXCEPT ![self] = "wStart"]
-              /\ UNCHANGED << plan, rplan, lock, writeTxn, writeEvent, waiters, 
-                              evSet, nextEv, versions, published, readerVer, 
-                              admitOrder, arrivals, committed, everVersions, k, 
-                              myEv, enq, ver, snap, rk, rver >>
+              /\ UNCHANGED << plan, rplan, pplan, lock, writeTxn, writeEvent, 
+                              waiters, evSet, nextEv, versions, published, 
+                              readerVer, maxv, admitOrder, arrivals, committed, 
+                              everVersions, k, myEv, enq, ver, snap, rk, rver, 
+                              pk >>
 
 w(self) == wStart(self) \/ wAcq(self) \/ wTest(self) \/ wRelA(self)
               \/ wNewEv(self) \/ wEnq(self) \/ wRelW(self) \/ wWait(self)
@@ -364,97 +409,168 @@ rStart(self) == /\ pc[self] = "rStart"
                            /\ pc' = [pc EXCEPT ![self] = "rAcq"]
                       ELSE /\ pc' = [pc EXCEPT ![self] = "Done"]
                            /\ rk' = rk
-                /\ UNCHANGED << plan, rplan, lock, writeTxn, writeEvent, 
+                /\ UNCHANGED << plan, rplan, pplan, lock, writeTxn, writeEvent, 
                                 waiters, evSet, nextEv, versions, published, 
-                                readerVer, admitOrder, arrivals, committed, 
-                                everVersions, k, myEv, enq, ver, snap, rver >>
+                                readerVer, maxv, admitOrder, arrivals, 
+                                committed, everVersions, k, myEv, enq, ver, 
+                                snap, rver, pk >>
 
 rAcq(self) == /\ pc[self] = "rAcq"
               /\ lock = 0
               /\ lock' = self
               /\ pc' = [pc EXCEPT ![self] = "rPick"]
-              /\ UNCHANGED << plan, rplan, writeTxn, writeEvent, waiters, 
-                              evSet, nextEv, versions, published, readerVer, 
-                              admitOrder, arrivals, committed, everVersions, k, 
-                              myEv, enq, ver, snap, rk, rver >>
+              /\ UNCHANGED << plan, rplan, pplan, writeTxn, writeEvent, 
+                              waiters, evSet, nextEv, versions, published, 
+                              readerVer, maxv, admitOrder, arrivals, committed, 
+                              everVersions, k, myEv, enq, ver, snap, rk, rver, 
+                              pk >>
 
 rPick(self) == /\ pc[self] = "rPick"
                /\ rver' = [rver EXCEPT ![self] = Last(versions)]
                /\ readerVer' = [readerVer EXCEPT ![self] = Last(versions).id]
                /\ pc' = [pc EXCEPT ![self] = "rRel"]
-               /\ UNCHANGED << plan, rplan, lock, writeTxn, writeEvent, 
+               /\ UNCHANGED << plan, rplan, pplan, lock, writeTxn, writeEvent, 
                                waiters, evSet, nextEv, versions, published, 
-                               admitOrder, arrivals, committed, everVersions, 
-                               k, myEv, enq, ver, snap, rk >>
+                               maxv, admitOrder, arrivals, committed, 
+                               everVersions, k, myEv, enq, ver, snap, rk, pk >>
 
 rRel(self) == /\ pc[self] = "rRel"
               /\ lock' = 0
               /\ pc' = [pc EXCEPT ![self] = "rOpen"]
-              /\ UNCHANGED << plan, rplan, writeTxn, writeEvent, waiters, 
-                              evSet, nextEv, versions, published, readerVer, 
-                              admitOrder, arrivals, committed, everVersions, k, 
-                              myEv, enq, ver, snap, rk, rver >>
+              /\ UNCHANGED << plan, rplan, pplan, writeTxn, writeEvent, 
+                              waiters, evSet, nextEv, versions, published, 
+                              readerVer, maxv, admitOrder, arrivals, committed, 
+                              everVersions, k, myEv, enq, ver, snap, rk, rver, 
+                              pk >>
 
 rOpen(self) == /\ pc[self] = "rOpen"
                /\ TRUE
                /\ pc' = [pc EXCEPT ![self] = "rRead"]
-               /\ UNCHANGED << plan, rplan, lock, writeTxn, writeEvent, 
+               /\ UNCHANGED << plan, rplan, pplan, lock, writeTxn, writeEvent, 
                                waiters, evSet, nextEv, versions, published, 
-                               readerVer, admitOrder, arrivals, committed, 
-                               everVersions, k, myEv, enq, ver, snap, rk, rver >>
+                               readerVer, maxv, admitOrder, arrivals, 
+                               committed, everVersions, k, myEv, enq, ver, 
+                               snap, rk, rver, pk >>
 
 rRead(self) == /\ pc[self] = "rRead"
                /\ TRUE
                /\ pc' = [pc EXCEPT ![self] = "rcAcq"]
-               /\ UNCHANGED << plan, rplan, lock, writeTxn, writeEvent, 
+               /\ UNCHANGED << plan, rplan, pplan, lock, writeTxn, writeEvent, 
                                waiters, evSet, nextEv, versions, published, 
-                               readerVer, admitOrder, arrivals, committed, 
-                               everVersions, k, myEv, enq, ver, snap, rk, rver >>
+                               readerVer, maxv, admitOrder, arrivals, 
+                               committed, everVersions, k, myEv, enq, ver, 
+                               snap, rk, rver, pk >>
 
 rcAcq(self) == /\ pc[self] = "rcAcq"
                /\ lock = 0
                /\ lock' = self
                /\ pc' = [pc EXCEPT ![self] = "rcEnd"]
-               /\ UNCHANGED << plan, rplan, writeTxn, writeEvent, waiters, 
-                               evSet, nextEv, versions, published, readerVer, 
-                               admitOrder, arrivals, committed, everVersions, 
-                               k, myEv, enq, ver, snap, rk, rver >>
+               /\ UNCHANGED << plan, rplan, pplan, writeTxn, writeEvent, 
+                               waiters, evSet, nextEv, versions, published, 
+                               readerVer, maxv, admitOrder, arrivals, 
+                               committed, everVersions, k, myEv, enq, ver, 
+                               snap, rk, rver, pk >>
 
 rcEnd(self) == /\ pc[self] = "rcEnd"
                /\ readerVer' = [readerVer EXCEPT ![self] = 0]
                /\ pc' = [pc EXCEPT ![self] = "rcPrune"]
-               /\ UNCHANGED << plan, rplan, lock, writeTxn, writeEvent, 
+               /\ UNCHANGED << plan, rplan, pplan, lock, writeTxn, writeEvent, 
                                waiters, evSet, nextEv, versions, published, 
-                               admitOrder, arrivals, committed, everVersions, 
-                               k, myEv, enq, ver, snap, rk, rver >>
+                               maxv, admitOrder, arrivals, committed, 
+                               everVersions, k, myEv, enq, ver, snap, rk, rver, 
+                               pk >>
 
 rcPrune(self) == /\ pc[self] = "rcPrune"
-                 /\ versions' = Prune(versions, readerVer)
+                 /\ versions' = Prune(versions, readerVer, maxv)
                  /\ pc' = [pc EXCEPT ![self] = "rcRel"]
-                 /\ UNCHANGED << plan, rplan, lock, writeTxn, writeEvent, 
-                                 waiters, evSet, nextEv, published, readerVer, 
-                                 admitOrder, arrivals, committed, everVersions, 
-                                 k, myEv, enq, ver, snap, rk, rver >>
+                 /\ UNCHANGED << plan, rplan, pplan, lock, writeTxn, 
+                                 writeEvent, waiters, evSet, nextEv, published, 
+                                 readerVer, maxv, admitOrder, arrivals, 
+                                 committed, everVersions, k, myEv, enq, ver, 
+                                 snap, rk, rver, pk >>
 
 rcRel(self) == /\ pc[self] = "rcRel"
                /\ lock' = 0
                /\ pc' = [pc EXCEPT ![self] = "rEnd"]
-               /\ UNCHANGED << plan, rplan, writeTxn, writeEvent, waiters, 
-                               evSet, nextEv, versions, published, readerVer, 
-                               admitOrder, arrivals, committed, everVersions, 
-                               k, myEv, enq, ver, snap, rk, rver >>
+               /\ UNCHANGED << plan, rplan, pplan, writeTxn, writeEvent, 
+                               waiters, evSet, nextEv, versions, published, 
+                               readerVer, maxv, admitOrder, arrivals, 
+                               committed, everVersions, k, myEv, enq, ver, 
+                               snap, rk, rver, pk >>
 
 rEnd(self) == /\ pc[self] = "rEnd"
               /\ TRUE
               /\ pc' = [pc EXCEPT ![self] = "rStart"]
-              /\ UNCHANGED << plan, rplan, lock, writeTxn, writeEvent, waiters, 
-                              evSet, nextEv, versions, published, readerVer, 
-                              admitOrder, arrivals, committed, everVersions, k, 
-                              myEv, enq, ver, snap, rk, rver >>
+              /\ UNCHANGED << plan, rplan, pplan, lock, writeTxn, writeEvent, 
+                              waiters, evSet, nextEv, versions, published, 
+                              readerVer, maxv, admitOrder, arrivals, committed, 
+                              everVersions, k, myEv, enq, ver, snap, rk, rver, 
+                              pk >>
 
 r(self) == rStart(self) \/ rAcq(self) \/ rPick(self) \/ rRel(self)
               \/ rOpen(self) \/ rRead(self) \/ rcAcq(self) \/ rcEnd(self)
               \/ rcPrune(self) \/ rcRel(self) \/ rEnd(self)
+
+pStart(self) == /\ pc[self] = "pStart"
+                /\ IF pk[self] < Len(pplan[self])
+                      THEN /\ pk' = [pk EXCEPT ![self] = pk[self] + 1]
+                           /\ pc' = [pc EXCEPT ![self] = "pAcq"]
+                      ELSE /\ pc' = [pc EXCEPT ![self] = "Done"]
+                           /\ pk' = pk
+                /\ UNCHANGED << plan, rplan, pplan, lock, writeTxn, writeEvent, 
+                                waiters, evSet, nextEv, versions, published, 
+                                readerVer, maxv, admitOrder, arrivals, 
+                                committed, everVersions, k, myEv, enq, ver, 
+                                snap, rk, rver >>
+
+pAcq(self) == /\ pc[self] = "pAcq"
+              /\ lock = 0
+              /\ lock' = self
+              /\ pc' = [pc EXCEPT ![self] = "pSet"]
+              /\ UNCHANGED << plan, rplan, pplan, writeTxn, writeEvent, 
+                              waiters, evSet, nextEv, versions, published, 
+                              readerVer, maxv, admitOrder, arrivals, committed, 
+                              everVersions, k, myEv, enq, ver, snap, rk, rver, 
+                              pk >>
+
+pSet(self) == /\ pc[self] = "pSet"
+              /\ maxv' = pplan[self][pk[self]]
+              /\ pc' = [pc EXCEPT ![self] = "pPrune"]
+              /\ UNCHANGED << plan, rplan, pplan, lock, writeTxn, writeEvent, 
+                              waiters, evSet, nextEv, versions, published, 
+                              readerVer, admitOrder, arrivals, committed, 
+                              everVersions, k, myEv, enq, ver, snap, rk, rver, 
+                              pk >>
+
+pPrune(self) == /\ pc[self] = "pPrune"
+                /\ versions' = Prune(versions, readerVer, maxv)
+                /\ pc' = [pc EXCEPT ![self] = "pRel"]
+                /\ UNCHANGED << plan, rplan, pplan, lock, writeTxn, writeEvent, 
+                                waiters, evSet, nextEv, published, readerVer, 
+                                maxv, admitOrder, arrivals, committed, 
+                                everVersions, k, myEv, enq, ver, snap, rk, 
+                                rver, pk >>
+
+pRel(self) == /\ pc[self] = "pRel"
+              /\ lock' = 0
+              /\ pc' = [pc EXCEPT ![self] = "pEnd"]
+              /\ UNCHANGED << plan, rplan, pplan, writeTxn, writeEvent, 
+                              waiters, evSet, nextEv, versions, published, 
+                              readerVer, maxv, admitOrder, arrivals, committed, 
+                              everVersions, k, myEv, enq, ver, snap, rk, rver, 
+                              pk >>
+
+pEnd(self) == /\ pc[self] = "pEnd"
+              /\ TRUE
+              /\ pc' = [pc EXCEPT ![self] = "pStart"]
+              /\ UNCHANGED << plan, rplan, pplan, lock, writeTxn, writeEvent, 
+                              waiters, evSet, nextEv, versions, published, 
+                              readerVer, maxv, admitOrder, arrivals, committed, 
+                              everVersions, k, myEv, enq, ver, snap, rk, rver, 
+                              pk >>
+
+pol(self) == pStart(self) \/ pAcq(self) \/ pSet(self) \/ pPrune(self)
+                \/ pRel(self) \/ pEnd(self)
 
 (* Allow infinite stuttering to prevent deadlock on termination. *)
 Terminating == /\ \A self \in ProcSet: pc[self] = "Done"
@@ -462,23 +578,26 @@ Terminating == /\ \A self \in ProcSet: pc[self] = "Done"
 
 Next == (\E self \in Writers: w(self))
            \/ (\E self \in Readers: r(self))
+           \/ (\E self \in Policers: pol(self))
            \/ Terminating
 
 Spec == /\ Init /\ [][Next]_vars
         /\ \A self \in Writers : WF_vars(w(self))
         /\ \A self \in Readers : WF_vars(r(self))
+        /\ \A self \in Policers : WF_vars(pol(self))
 
 Termination == <>(\A self \in ProcSet: pc[self] = "Done")
 
 \* END TRANSLATION
 
 -----------------------------------------------------------------------------
-Threads == Writers \cup Readers
+Threads == Writers \cup Readers \cup Policers
 Hows == {"commit", "rollback", "empty"}
 
 \* labels at which the thread holds (must hold) the lock
 CSLabels == {"wTest", "wRelA", "wNewEv", "wEnq", "wRelW", "cAppend", "cPrune", "cPublish",
-             "xClear", "xTest", "xPop", "xSet", "eRel", "rPick", "rRel", "rcEnd", "rcPrune", "rcRel"}
+             "xClear", "xTest", "xPop", "xSet", "eRel", "rPick", "rRel", "rcEnd", "rcPrune", "rcRel",
+             "pSet", "pPrune", "pRel"}
 \* labels between admission and the end of the write (write transaction open)
 OpenLabels == {"wRelA", "wSetup", "wRet", "wBody", "eAcq", "cAppend", "cPrune", "cPublish", "xClear"}
 \* labels at which a writer has asked for a transaction and has not been admitted yet
@@ -522,13 +641,18 @@ QueueWellFormed ==
     /\ \A i, j \in 1..Len(waiters) : i # j => waiters[i] # waiters[j]
     /\ \A i \in 1..Len(waiters) : waiters[i] \notin evSet /\ waiters[i] # writeEvent
                                   /\ \E t \in Writers : myEv[t] = waiters[i] /\ pc[t] \in {"wRelW", "wWait"}
-    /\ writeEvent # 0 => /\ writeEvent \in evSet
+    /\ writeEvent # 0 => /\ (lock = 0 => writeEvent \in evSet)
                          /\ \E t \in Writers : myEv[t] = writeEvent /\ pc[t] \in {"wRelW", "wWait", "wAcq", "wTest"}
 NoLostWakeup ==
     (lock = 0 /\ writeTxn = 0 /\ writeEvent = 0) => waiters = <<>>
 \* a woken writer is admitted at its next test (it never has to queue twice)
 OneEventPerCall == \A t \in Writers : pc[t] = "wNewEv" => myEv[t] = 0
 
+\* retention is exact whenever nobody is inside a critical section: the oldest retained
+\* version is pinned, or is the newest, or the policy keeps it
+RetentionExact ==
+    lock = 0 => \/ versions[1].id >= LeastKept(versions, readerVer)
+                \/ maxv = 0 \/ Len(versions) <= maxv
 VersionsOrdered == \A i \in 1..Len(versions) - 1 : versions[i].id < versions[i + 1].id
 
 Serial(S) == SelectSeq(admitOrder, LAMBDA x : x \in S)
@@ -538,7 +662,8 @@ SerialEquivalence ==
     lock = 0 => /\ Last(versions).content = Serial(committed)
                 /\ published = Serial(committed)
 \* every version ever committed is a prefix of the serial history
-VersionsArePrefixes == \A v \in everVersions : IsPrefix(v.content, admitOrder)
+AppendedTags == UNION {{v.content[i] : i \in 1..Len(v.content)} : v \in everVersions}
+VersionsArePrefixes == \A v \in everVersions : IsPrefix(v.content, Serial(AppendedTags))
 
 \* readers hold a committed version, and it stays retained while they hold it
 ReadersSeeCommitted ==
